@@ -179,6 +179,12 @@ type client struct {
 	inFlightM sync.Mutex // protects inFlight and SetReadDeadline
 	inFlight  uint32
 
+	// writeM serializes the writing of whole frames to conn. Frames are
+	// written concurrently by the batching goroutine and by callers of
+	// QueueRPC, and one frame can take several Write calls on a net.Conn
+	// that doesn't support writev (anything but a plain TCP socket).
+	writeM sync.Mutex
+
 	id uint32
 
 	rpcQueueSize  int
@@ -647,12 +653,14 @@ func (c *client) send(rpc hrpc.Call) (uint32, error) {
 	}
 
 	rpcSize.WithLabelValues(c.Addr()).Observe(float64(uint32(len(b)) + cellblocksLen))
+	c.writeM.Lock()
 	if cellblocks != nil {
 		bfs := append(net.Buffers{b}, cellblocks...)
 		_, err = bfs.WriteTo(c.conn)
 	} else {
 		err = c.write(b)
 	}
+	c.writeM.Unlock()
 	if err != nil {
 		return id, ServerError{err}
 	}
